@@ -192,4 +192,54 @@ example : (step {} (run {} {} [.put 7, .put 8, .addClient 1 60 0, .rdy 1 1, .del
 example : (step {} (run {} {} [.put 7, .addClient 1 60 0, .rdy 1 1, .pause]) (.deliver 1 7 100)).2
     = .reject "guard" := by decide
 
+
+/-! ## topic level -/
+section Nsqd
+open Nsq.Model.ChanNsqd Nsq.Proofs.ChanNsqd
+
+/-- C03.5 `topic_pause_handshake` — once `pauseTopic` has returned (flag stored and the pump
+hand-shaken: regenerated fact `Tie.Chan.topicDoPause_eq`), the fan-out step is refused and changes
+nothing until `unpauseTopic`; meanwhile publishes are still acknowledged and enqueued
+(`C01.ack_implies_enqueued` has no pause hypothesis). -/
+theorem topic_pause_handshake (s : State) (t id : Nat) (kept : Bool) (pris : List (Nat × Int))
+    {tp : Topic} (hf : findT s.topics t = some tp) (hp : tp.paused = true) :
+    Nsq.Model.ChanNsqd.step s (.pumpTopic t id kept pris) = (s, .reject "pump-disabled") := by
+  simp [Nsq.Model.ChanNsqd.step, hf, pumpEnabled, hp]
+
+/-- pausing really sets the flag the pump looks at, unpausing clears it -/
+theorem pause_sets_flag (s : State) (t : Nat) {tp : Topic} (hf : findT s.topics t = some tp) :
+    (∀ y ∈ (Nsq.Model.ChanNsqd.step s (.pauseTopic t)).1.topics, y.tid = t → y.paused = true) ∧
+    (∀ y ∈ (Nsq.Model.ChanNsqd.step s (.unpauseTopic t)).1.topics, y.tid = t → y.paused = false) := by
+  constructor
+  · intro y hy hyt
+    simp only [Nsq.Model.ChanNsqd.step, hf] at hy
+    obtain ⟨z, _, rfl⟩ := mem_updT.1 hy
+    by_cases hk : z.tid = t
+    · simp [hk]
+    · simp only [hk, ↓reduceIte] at hyt
+  · intro y hy hyt
+    simp only [Nsq.Model.ChanNsqd.step, hf] at hy
+    obtain ⟨z, _, rfl⟩ := mem_updT.1 hy
+    by_cases hk : z.tid = t
+    · simp [hk]
+    · simp only [hk, ↓reduceIte] at hyt
+
+/-- channel pause at the daemon level: every channel-level statement above holds for every channel
+of every reachable daemon state (`C01.every_channel_inv`); in particular a paused channel's
+delivery step is refused: -/
+theorem chan_pause_blocks (conf : Conf) (c : Chan) (hp : c.paused = true) (k id : Nat) (now : Int) :
+    (Nsq.Model.Chan.step conf c (.deliver k id now)).1 = c ∧ ∀ a, (Nsq.Model.Chan.step conf c (.deliver k id now)).2 ≠ .msg a := by
+  simp only [Nsq.Model.Chan.step]
+  split
+  · exact ⟨rfl, fun _ h => by cases h⟩
+  · simp [ready, hp]
+
+/-! non-vacuity -/
+example : (Nsq.Model.ChanNsqd.step (Nsq.Model.ChanNsqd.run {} [.createChan 1 1 false, .pauseTopic 1, .pub 1 10])
+    (.pumpTopic 1 1 false [])).2 = .reject "pump-disabled" := by decide
+example : (Nsq.Model.ChanNsqd.step (Nsq.Model.ChanNsqd.run {} [.createChan 1 1 false, .pauseTopic 1, .pub 1 10, .unpauseTopic 1])
+    (.pumpTopic 1 1 false [])).2 = .ids [1] := by decide
+
+end Nsqd
+
 end Nsq.Props.C03
